@@ -693,6 +693,45 @@ func rulePHASE(c *Ctx) []Obligation {
 	}
 	_ = sfn
 	_ = cg
+	// no step after the work-list drain may queue new placeholders
+	var drainPos token.Pos
+	for _, st := range tfd.Body.List {
+		if rs, ok := st.(*ast.RangeStmt); ok && mapFieldName(info, rs.X) == "generator.todo" {
+			drainPos = rs.Pos()
+		}
+	}
+	if drainPos.IsValid() {
+		o := Obligation{Key: "no placeholder is queued after the work-list drain", Pos: c.pos(drainPos), Verdict: OK, Detail: "every step that can append to generator.todo precedes the drain"}
+		for _, st := range tfd.Body.List {
+			if st.Pos() <= drainPos {
+				continue
+			}
+			ast.Inspect(st, func(nd ast.Node) bool {
+				call, ok := nd.(*ast.CallExpr)
+				if !ok {
+					return true
+				}
+				f := calleeOf(info, call)
+				if f == nil || f.Pkg() == nil || f.Pkg().Path() != pkgASM {
+					return true
+				}
+				sf := c.ssaFunc(f)
+				if sf == nil {
+					return true
+				}
+				effs, _ := e.closure([]*ssa.Function{sf})
+				for _, r := range effs {
+					if r.Kind == "field" && r.Target == "asm.generator.todo" && o.Verdict == OK {
+						o.Verdict = VIOL
+						o.Pos = c.pos(call.Pos())
+						o.Detail = fmt.Sprintf("%s runs after the loop that replaces blockaddress placeholders but can still queue one (%s via %s): that placeholder is never replaced and survives in the returned module, and an undefined label in it is never diagnosed", f.Name(), c.pos(r.Pos), r.Path)
+					}
+				}
+				return true
+			})
+		}
+		obs = append(obs, o)
+	}
 	maps := map[string]bool{}
 	for _, s := range steps {
 		for m := range s.fills {
@@ -831,5 +870,157 @@ func rulePARENT(c *Ctx) []Obligation {
 			return true
 		})
 	})
+	return obs
+}
+
+// ---------------------------------------------------------------------------
+// index accesses per function (AST): non-materialising stores and lookups of the generator's index maps
+
+type indexAccess struct {
+	stores  map[string][]token.Pos // map field -> positions of stores that are not `!ok` materialisations
+	mater   map[string][]token.Pos // materialising stores (inside the miss branch of a lookup of the same map and key)
+	lookups map[string][]token.Pos
+}
+
+func (c *Ctx) indexAccesses() map[*types.Func]*indexAccess {
+	if v, ok := c.memo["indexAccesses"]; ok {
+		return v.(map[*types.Func]*indexAccess)
+	}
+	out := map[*types.Func]*indexAccess{}
+	c.eachFunc(pkgASM, func(p *packages.Package, fd *ast.FuncDecl, fn *types.Func) {
+		info := p.TypesInfo
+		ia := &indexAccess{stores: map[string][]token.Pos{}, mater: map[string][]token.Pos{}, lookups: map[string][]token.Pos{}}
+		pm := buildParents(fd.Body)
+		isIndexMap := func(x ast.Expr) (string, bool) {
+			if _, ok := info.TypeOf(x).Underlying().(*types.Map); !ok {
+				return "", false
+			}
+			m := mapFieldName(info, x)
+			if strings.HasPrefix(m, "newIndex.") || strings.HasPrefix(m, "oldIndex.") || m == "funcGen.locals" {
+				return m, true
+			}
+			return "", false
+		}
+		stored := map[*ast.IndexExpr]bool{}
+		ast.Inspect(fd.Body, func(nd ast.Node) bool {
+			as, ok := nd.(*ast.AssignStmt)
+			if !ok {
+				return true
+			}
+			for _, l := range as.Lhs {
+				ix, ok := unparen(l).(*ast.IndexExpr)
+				if !ok {
+					continue
+				}
+				m, ok := isIndexMap(ix.X)
+				if !ok {
+					continue
+				}
+				stored[ix] = true
+				// materialisation: inside `if !ok { ... }` where ok comes from a lookup of the same map with the same key
+				mat := false
+				for x := ast.Node(as); x != nil; x = pm[x] {
+					is, ok := pm[x].(*ast.IfStmt)
+					if !ok || is.Body != x {
+						continue
+					}
+					cond := strings.ReplaceAll(exprString(is.Cond), " ", "")
+					if !strings.HasPrefix(cond, "!") {
+						continue
+					}
+					okName := cond[1:]
+					// find the defining lookup of okName before the if
+					ast.Inspect(fd.Body, func(q ast.Node) bool {
+						a2, ok := q.(*ast.AssignStmt)
+						if !ok || len(a2.Lhs) != 2 || len(a2.Rhs) != 1 || exprString(a2.Lhs[1]) != okName || a2.Pos() > is.Pos() {
+							return true
+						}
+						if ix2, ok := unparen(a2.Rhs[0]).(*ast.IndexExpr); ok && exprString(ix2.X) == exprString(ix.X) && exprString(ix2.Index) == exprString(ix.Index) {
+							mat = true
+						}
+						return true
+					})
+				}
+				if mat {
+					ia.mater[m] = append(ia.mater[m], as.Pos())
+				} else {
+					ia.stores[m] = append(ia.stores[m], as.Pos())
+				}
+			}
+			return true
+		})
+		ast.Inspect(fd.Body, func(nd ast.Node) bool {
+			ix, ok := nd.(*ast.IndexExpr)
+			if !ok || stored[ix] {
+				return true
+			}
+			if m, ok := isIndexMap(ix.X); ok {
+				ia.lookups[m] = append(ia.lookups[m], ix.Pos())
+			}
+			return true
+		})
+		out[fn] = ia
+	})
+	c.memo["indexAccesses"] = out
+	return out
+}
+
+func init() {
+	register(&Rule{
+		Name:  "IDX-ONCE",
+		Doc:   "every index of IR definitions (newIndex.*) is filled at exactly one store site; any other store must be the materialisation of a missing entry (inside the miss branch of a lookup of the same key). A second plain store replaces an entry after uses may already be bound to the first object",
+		Floor: 6,
+		Run:   ruleIDXONCE,
+	})
+}
+
+func ruleIDXONCE(c *Ctx) []Obligation {
+	var obs []Obligation
+	type site struct {
+		fn  *types.Func
+		pos token.Pos
+	}
+	sites := map[string][]site{}
+	maters := map[string]int{}
+	for fn, ia := range c.indexAccesses() {
+		for m, ps := range ia.stores {
+			if !strings.HasPrefix(m, "newIndex.") {
+				continue
+			}
+			for _, p := range ps {
+				sites[m] = append(sites[m], site{fn, p})
+			}
+		}
+		for m, ps := range ia.mater {
+			if strings.HasPrefix(m, "newIndex.") {
+				maters[m] += len(ps)
+			}
+		}
+	}
+	// all map-typed fields of newIndex
+	if tn := c.lookupType(pkgASM, "newIndex"); tn != nil {
+		st := tn.Type().Underlying().(*types.Struct)
+		for i := 0; i < st.NumFields(); i++ {
+			m := "newIndex." + st.Field(i).Name()
+			ss := sites[m]
+			sort.Slice(ss, func(i, j int) bool { return ss[i].pos < ss[j].pos })
+			o := Obligation{Key: "asm." + m + " has one fill site", Pos: c.pos(st.Field(i).Pos()), Verdict: OK}
+			var names []string
+			for _, s := range ss {
+				names = append(names, fmt.Sprintf("%s (%s)", funcKey(s.fn), c.pos(s.pos)))
+			}
+			switch {
+			case len(ss) == 0:
+				o.Verdict, o.Detail = VIOL, "the index is never filled"
+			case len(ss) > 1:
+				o.Verdict = VIOL
+				o.Pos = c.pos(ss[len(ss)-1].pos)
+				o.Detail = fmt.Sprintf("%d plain store sites: %s — an entry written by one site can be replaced by another after uses were bound to the first object, so a use is no longer the object the module lists as the definition", len(ss), strings.Join(names, "; "))
+			default:
+				o.Detail = fmt.Sprintf("filled by %s; %d materialising store(s)", names[0], maters[m])
+			}
+			obs = append(obs, o)
+		}
+	}
 	return obs
 }
